@@ -50,7 +50,7 @@ def run(rep, tier):
             rep.violation(cls + "/" + entry[0], {"value": c["v"], "text_raw_spelling": o["text0"], "expected": bytes(c["bytes"]).decode("utf-8", "replace") if c["ok"] else "reject",
                                                  "observed": got, "entry_points": who})
     rep.sample({"value": cases[200]["v"], "text_spelling_1": obs[200]["text1"], "expected_bytes": cases[200]["bytes"]})
-    n = 40000 if thorough else 5000
+    n = 300000 if thorough else 5000
     tpath = vlib.record_trace("C01", ["record", "c01", "--n", str(n)])
     recs = vlib.read_ndjson(tpath)
     nrec, bad = vlib.validate_trace(rep, "C01", "Trace_C01", tpath, stack="1g")
